@@ -92,13 +92,30 @@ DEFAULTS = {"max_it": 250, "relax": 1.0, "conv_tol": 1.0e-4, "beta": 0.01, "alph
 _dim = st.one_of(st.integers(1, 4), st.integers(1, 12))
 _entry = st.one_of(st.just(0.0), st.integers(0, 16).map(lambda k: k / 8.0), st.floats(0.01, 1.0))
 _dense_entry = st.one_of(st.integers(1, 16).map(lambda k: k / 8.0), st.floats(0.01, 1.0))
-_factor = st.sampled_from([1.0, 1.0, 2.0, 0.5])
+_FACTOR = st.sampled_from([1.0, 1.0, 2.0, 0.5])
+
+
+_count_entry = st.sampled_from([0.0, 0.0, 1.0, 1.0, 2.0, 3.0, 5.0])          # hit counts
+_binary_entry = st.sampled_from([0.0, 1.0, 1.0])                               # 0/1 incidence matrix
+_LAYOUT2 = st.sampled_from(["C", "C", "C", "F", "strided"])
+_LAYOUT1 = st.sampled_from(["C", "C", "strided"])
+_W_DTYPE = st.sampled_from(["float64", "float64", "float64", "float32", "int64", "int32", "bool"])
+_B_DTYPE = st.sampled_from(["float64", "float64", "float64", "float32", "int64", "int32"])
+_L_DTYPE = st.sampled_from(["float64", "float64", "float64", "float32", "int64", "int32", "bool"])
 
 
 @st.composite
-def w_matrix(draw):
+def w_matrix(draw, dtype="float64"):
+    """entries as floats; for integer / bool dtypes every entry is an exactly representable count / 0-1 value."""
     m, n = draw(_dim), draw(_dim)
-    ent = draw(st.sampled_from([_entry, _entry, _dense_entry]))
+    integral = dtype in ("int64", "int32", "bool")
+    if dtype == "bool":
+        ent = _binary_entry
+    elif integral:
+        ent = draw(st.sampled_from([_binary_entry, _count_entry]))
+    else:
+        ent = draw(st.sampled_from([_entry, _entry, _dense_entry]))
+    _factor = st.just(1.0) if dtype == "bool" else (st.sampled_from([1.0, 2.0]) if integral else _FACTOR)
     w = [[draw(ent) for _ in range(n)] for _ in range(m)]
     if draw(st.booleans()):                                                 # exact rank deficiency / degenerate structure
         if n > 1:
@@ -115,7 +132,7 @@ def w_matrix(draw):
         for j in draw(st.sets(st.integers(0, n - 1), max_size=2)):           # zero columns (cell seen by no ray)
             for r in w:
                 r[j] = 0.0
-    s = draw(st.sampled_from([1.0, 1.0, 1e-3, 30.0]))
+    s = 1.0 if integral else draw(st.sampled_from([1.0, 1.0, 1e-3, 30.0]))
     return [[v * s for v in r] for r in w]
 
 
@@ -129,10 +146,11 @@ def _nonneg_vec(n, hi=10.0):
 
 
 @st.composite
-def b_vector(draw, w, kinds):
+def b_vector(draw, w, kinds, dtype="float64"):
     m, n = len(w), len(w[0])
     kind = draw(st.sampled_from(kinds))
-    s = draw(st.sampled_from([1.0, 1.0, 1e-2, 1e2]))
+    integral = dtype in ("int64", "int32")
+    s = draw(st.sampled_from([1.0, 1.0, 1e2] if integral else [1.0, 1.0, 1e-2, 1e2]))
     if kind == "zero":
         return {"kind": kind, "v": [0.0] * m}
     if kind == "consistent":
@@ -148,8 +166,12 @@ def b_vector(draw, w, kinds):
         if m == 1:
             kind = "random"
     b = [v * s for v in b]
+    if integral:                                                             # integer measurements (counts)
+        b = [float(round(v)) for v in b]
+        if kind == "mixed_sign" and not any(v < 0 for v in b):
+            kind = "random"
     if not any(v > 0 for v in b):                                            # main classes: at least one positive entry
-        b[0] = s * (1.0 + abs(b[0]))
+        b[0] = float(round(s * (1.0 + abs(b[0])))) if integral else s * (1.0 + abs(b[0]))
     return {"kind": kind, "v": b}
 
 
@@ -158,17 +180,31 @@ def _divisors(n):
 
 
 @st.composite
-def l_spec(draw, n, allow_none):
-    kinds = ["identity", "lap1d", "lap2d", "random"] + (["none"] if allow_none else [])
+def l_spec(draw, n, allow_none, dtypes=True):
+    """Laplacian / Tikhonov matrix: kind + dtype + memory layout of the array handed to the solver."""
+    dtype = draw(_L_DTYPE) if dtypes else "float64"
+    if dtype == "bool":
+        kinds = ["identity", "random"]                                       # the Laplacians have negative entries
+    else:
+        kinds = ["identity", "lap1d", "lap2d", "random"] + (["none"] if allow_none else [])
     kind = draw(st.sampled_from(kinds))
+    if kind == "none":
+        return {"kind": kind}
+    spec = {"kind": kind, "dtype": dtype, "layout": draw(_LAYOUT2) if dtypes else "C"}
     if kind == "lap1d":
-        return {"kind": kind, "bc": draw(st.sampled_from(["neumann", "dirichlet"]))}
-    if kind == "lap2d":
-        return {"kind": kind, "rows": draw(st.sampled_from(_divisors(n))), "diag": draw(st.booleans())}
-    if kind == "random":
-        e = st.one_of(st.just(0.0), st.integers(-8, 8).map(lambda k: k / 8.0), st.floats(-1.0, 1.0))
-        return {"kind": kind, "M": [[draw(e) for _ in range(n)] for _ in range(n)]}
-    return {"kind": kind}
+        spec["bc"] = draw(st.sampled_from(["neumann", "dirichlet"]))
+    elif kind == "lap2d":
+        spec["rows"] = draw(st.sampled_from(_divisors(n)))
+        spec["diag"] = draw(st.booleans())
+    elif kind == "random":
+        if dtype == "bool":
+            e = st.sampled_from([0.0, 1.0])
+        elif dtype in ("int64", "int32"):
+            e = st.integers(-3, 3).map(float)
+        else:
+            e = st.one_of(st.just(0.0), st.integers(-8, 8).map(lambda k: k / 8.0), st.floats(-1.0, 1.0))
+        spec["M"] = [[draw(e) for _ in range(n)] for _ in range(n)]
+    return spec
 
 
 _conv_tol = st.one_of(st.sampled_from([0.0, 1e-8, 1e-6, 1e-4, 1e-4, 1e-3, 1e-2, 1e-1]),
@@ -192,8 +228,8 @@ def sart_case(draw):
     n = len(w[0])
     case = {"variant": draw(st.sampled_from(["plain", "constrained"])), "W": w,
             "b": draw(b_vector(w, ["consistent", "consistent", "random", "mixed_sign"])),
-            "layout": draw(st.sampled_from(["C", "C", "C", "F"]))}
-    g = draw(st.sampled_from(["none", "float", "int", "array", "array", "array_signed"]))
+            "layout": draw(_LAYOUT2), "b_layout": draw(_LAYOUT1)}
+    g = draw(st.sampled_from(["none", "float", "int", "array", "array", "array_signed", "array_f32", "array_int", "list"]))
     if g == "float":
         case["guess"] = draw(st.one_of(st.just(0.0), st.floats(1e-3, 100.0)))
     elif g == "int":
@@ -202,6 +238,12 @@ def sart_case(draw):
         case["guess"] = draw(_nonneg_vec(n, 100.0))
     elif g == "array_signed":
         case["guess"] = draw(st.lists(_signed(10.0), min_size=n, max_size=n))
+    elif g in ("array_f32", "list"):                  # accepted forms: float32 array, plain Python list
+        case["guess"] = draw(_nonneg_vec(n, 100.0))
+        case["guess_form"] = "float32" if g == "array_f32" else "list"
+    elif g == "array_int":                            # integer array (e.g. np.ones(n, dtype=int))
+        case["guess"] = draw(st.lists(st.integers(0, 5).map(float), min_size=n, max_size=n))
+        case["guess_form"] = draw(st.sampled_from(["int64", "int32"]))
     else:
         case["guess"] = None
     if draw(st.integers(0, 9)) == 0:
@@ -230,7 +272,7 @@ def sart_fixed_case(draw):
     if case["variant"] == "constrained":
         if draw(st.booleans()):
             case["beta"] = 0.0
-            case["L"] = draw(l_spec(n, False))
+            case["L"] = draw(l_spec(n, False, dtypes=False))
         else:                                   # beta > 0: constant field is in the null space of a graph Laplacian
             case["beta"] = draw(st.floats(0.001, 0.2))
             case["L"] = draw(st.one_of(st.just({"kind": "lap1d", "bc": "neumann"}),
@@ -256,9 +298,11 @@ def sart_fixed_case(draw):
 
 @st.composite
 def reg_case(draw, bkinds):
-    w = draw(w_matrix())
+    wdt, bdt = draw(_W_DTYPE), draw(_B_DTYPE)
+    w = draw(w_matrix(wdt))
     n = len(w[0])
-    case = {"W": w, "b": draw(b_vector(w, bkinds)), "L": draw(l_spec(n, True))}
+    case = {"W": w, "b": draw(b_vector(w, bkinds, bdt)), "L": draw(l_spec(n, True)),
+            "W_dtype": wdt, "b_dtype": bdt, "layout": draw(_LAYOUT2), "b_layout": draw(_LAYOUT1)}
     if draw(st.integers(0, 11)) != 0:
         case["alpha"] = 10.0 ** draw(st.floats(-3.0, 1.0))
     case["reuse"] = _reuse(draw, _alpha_override)
@@ -275,8 +319,10 @@ def lstsq_case():
 
 @st.composite
 def svd_case(draw):
-    w = draw(w_matrix())
-    return {"W": w, "b": draw(b_vector(w, ["consistent", "consistent", "random", "mixed_sign", "zero"])),
+    wdt, bdt = draw(_W_DTYPE), draw(_B_DTYPE)
+    w = draw(w_matrix(wdt))
+    return {"W": w, "b": draw(b_vector(w, ["consistent", "consistent", "random", "mixed_sign", "zero"], bdt)),
+            "W_dtype": wdt, "b_dtype": bdt, "layout": draw(_LAYOUT2), "b_layout": draw(_LAYOUT1),
             "reuse": _reuse(draw, st.just({}))}
 
 
@@ -386,13 +432,54 @@ def ref_sart(W, b, x0, max_it, relax, conv_tol, L, beta, vectorised):
     return x, conv, {"clipped": clipped, "xscale": xscale, "margin_bad": margin_bad, "cscale": max(cerr)}
 
 
-def _as_w(case):
-    W = np.array(case["W"], dtype=float)
-    if W.ndim != 2:
-        W = W.reshape(len(case["W"]), -1)
-    if case.get("layout") == "F":
-        W = np.asfortranarray(W)
-    return W
+_NP = {"float64": np.float64, "float32": np.float32, "int64": np.int64, "int32": np.int32, "bool": np.bool_}
+U32 = 2.0 ** -24
+
+
+def _pristine(values, dtype="float64"):
+    """float64 array of the numbers an array of `dtype` built from `values` holds exactly (the user's problem data)."""
+    a = np.array(values, dtype=float)
+    if dtype == "float32":
+        a = a.astype(np.float32).astype(np.float64)
+    elif dtype in ("int64", "int32"):
+        a = np.rint(a)
+    elif dtype == "bool":
+        a = (a != 0).astype(np.float64)
+    return a
+
+
+def _obj(a64, dtype="float64", layout="C"):
+    """the array object handed to the solver: requested dtype (exact conversion) and memory layout."""
+    arr = np.ascontiguousarray(a64.astype(_NP[dtype]))
+    if layout == "F":
+        arr = np.asfortranarray(arr)
+    elif layout == "strided":                      # non-contiguous view into a larger buffer
+        big = np.zeros(tuple(2 * k for k in arr.shape), dtype=arr.dtype)
+        view = big[(slice(None, None, 2),) * arr.ndim]
+        view[...] = arr
+        arr = view
+    return arr
+
+
+def _wb(case, ctx, owned, wname, bname, bvalues=None):
+    """pristine float64 (W0, b0) and the owned objects (W, b) in the drawn dtype / layout; labels them."""
+    wdt, bdt = case.get("W_dtype", "float64"), case.get("b_dtype", "float64")
+    wl, bl = case.get("layout", "C"), case.get("b_layout", "C")
+    W0 = _pristine(case["W"], wdt)
+    if W0.ndim != 2:
+        W0 = W0.reshape(len(case["W"]), -1)
+    b0 = _pristine(case["b"]["v"], bdt) if bvalues is None else bvalues(W0)
+    ctx.label("dtype:W=" + wdt, "dtype:b=" + bdt, "layout:W=" + wl, "layout:b=" + bl)
+    return W0, b0, owned.adopt(wname, _obj(W0, wdt, wl)), owned.adopt(bname, _obj(b0, bdt, bl))
+
+
+def _l_objects(spec, n, ctx, owned, name):
+    if spec["kind"] == "none":
+        return None, None, "float64"
+    dt, lay = spec.get("dtype", "float64"), spec.get("layout", "C")
+    L0 = _pristine(build_L(spec, n), dt)
+    ctx.label("dtype:L=" + dt, "layout:L=" + lay)
+    return L0, owned.adopt(name, _obj(L0, dt, lay)), dt
 
 
 def _cert(W, b, L, alpha):
@@ -423,7 +510,9 @@ class Owned:
         self.items, self.first_bad = [], None
 
     def own(self, name, pristine):
-        obj = np.array(pristine, order="K", copy=True)
+        return self.adopt(name, np.array(pristine, order="K", copy=True))
+
+    def adopt(self, name, obj):
         self.items.append((name, obj, obj.tobytes(), obj.shape, obj.dtype, obj.flags["F_CONTIGUOUS"]))
         return obj
 
@@ -519,28 +608,31 @@ def _certify_sart(ctx, W, b, L, x0, variant, prm, x, conv, call_no, structural):
 
 
 def run_sart(case, ctx):
-    W0 = _as_w(case)
-    m, n = W0.shape
-    b0 = np.array(case["b"]["v"], dtype=float)
+    owned = Owned()
     variant = case["variant"]
-    ctx.label("variant:" + variant, "b:" + case["b"]["kind"], "layout:" + case.get("layout", "C"))
+    W0, b0, W, b = _wb(case, ctx, owned, "geometry_matrix", "measurement_vector")   # SART: float64 only, any layout
+    m, n = W0.shape
+    ctx.label("variant:" + variant, "b:" + case["b"]["kind"])
     degenerate, rank, _, _ = w_classes(W0, ctx)
-    L0 = build_L(case["L"], n) if variant == "constrained" else None
+    L0 = L = None
     if variant == "constrained":
         ctx.label("L:" + case["L"]["kind"])
-    owned = Owned()
-    W, b = owned.own("geometry_matrix", W0), owned.own("measurement_vector", b0)
-    L = owned.own("laplacian_matrix", L0) if L0 is not None else None
+        L0, L, _ = _l_objects(case["L"], n, ctx, owned, "laplacian_matrix")
     g = case["guess"]
-    garr = None
+    garr = glist = None
     if g is None:
         ctx.label("guess:none")
         x0 = np.full(n, np.exp(-1))
     elif isinstance(g, list):
-        ctx.label("guess:array_signed" if any(v < 0 for v in g) else "guess:array")
-        x0 = np.array(g, dtype=float)
-        if _guess_sharing(case, ctx, True):
-            garr = owned.own("initial_guess", x0)
+        form = case.get("guess_form", "float64")
+        ctx.label("guess:array_signed" if any(v < 0 for v in g) else ("guess:array" if form == "float64" else "guess:" + form))
+        if form == "list":                              # plain Python list of floats
+            x0 = np.array(g, dtype=float)
+            glist = [float(v) for v in g]
+        else:
+            x0 = _pristine(g, form)
+            if _guess_sharing(case, ctx, True):
+                garr = owned.adopt("initial_guess", _obj(x0, form, "C"))
     else:
         ctx.label("guess:int" if isinstance(g, int) else "guess:float")
         x0 = np.full(n, float(g))
@@ -550,8 +642,10 @@ def run_sart(case, ctx):
     nt = False
     for call_no, prm in enumerate(_calls(case, base, ctx), 1):
         kw = _sart_kw(prm, variant)
-        if isinstance(g, list):
-            kw["initial_guess"] = garr if garr is not None else x0.copy()
+        if glist is not None:
+            kw["initial_guess"] = glist
+        elif isinstance(g, list):
+            kw["initial_guess"] = garr if garr is not None else _obj(x0, case.get("guess_form", "float64"), "C")
         elif g is not None:
             kw["initial_guess"] = g
         with ctx.cut("call"):
@@ -562,6 +656,8 @@ def run_sart(case, ctx):
             x = np.array(x, dtype=float)
             conv = [float(c) for c in conv]
         owned.scan(call_no)
+        if glist is not None:
+            ctx.check(glist == [float(v) for v in g], "inputs-unmodified", "the caller's initial_guess list was modified by call %d" % call_no)
         r = _certify_sart(ctx, W0, b0, L0, x0, variant, prm, x, conv, call_no, degenerate or rank < min(m, n))
         nt = nt or bool(r)
     owned.verdict(ctx)
@@ -569,18 +665,16 @@ def run_sart(case, ctx):
 
 
 def run_sart_fixed(case, ctx):
-    W0 = _as_w(case)
-    m, n = W0.shape
+    owned = Owned()
     variant = case["variant"]
     xs = np.array(case["xstar"], dtype=float)
-    b0 = np.dot(W0, xs)
-    ctx.label("variant:" + variant, "layout:" + case.get("layout", "C"))
+    W0, b0, W, b = _wb(case, ctx, owned, "geometry_matrix", "measurement_vector", bvalues=lambda w0: np.dot(w0, xs))
+    m, n = W0.shape
+    ctx.label("variant:" + variant)
     degenerate, rank, _, _ = w_classes(W0, ctx)
     if not np.max(b0) > 0:          # cannot happen by construction; an all-zero b is outside the accepted inputs
         ctx.label("skipped:zero_b")
         return
-    owned = Owned()
-    W, b = owned.own("geometry_matrix", W0), owned.own("measurement_vector", b0)
     L = None
     if variant == "constrained":
         beta = float(case["beta"])
@@ -621,18 +715,20 @@ def run_sart_fixed(case, ctx):
 
 
 def _reg_setup(case, ctx):
-    W0 = _as_w(case)
-    n = W0.shape[1]
-    b0 = np.array(case["b"]["v"], dtype=float)
-    L0 = build_L(case["L"], n)
-    ctx.label("b:" + case["b"]["kind"], "L:" + case["L"]["kind"])
     owned = Owned()
-    W, b = owned.own("w_matrix", W0), owned.own("b_vector", b0)
-    L = owned.own("tikhonov_matrix", L0) if L0 is not None else None
+    W0, b0, W, b = _wb(case, ctx, owned, "w_matrix", "b_vector")
+    n = W0.shape[1]
+    ctx.label("b:" + case["b"]["kind"], "L:" + case["L"]["kind"])
+    L0, L, ldt = _l_objects(case["L"], n, ctx, owned, "tikhonov_matrix")
     base = {"alpha": case["alpha"]} if "alpha" in case else {}
     if not base:
         ctx.label("alpha:default")
-    return W0, b0, L0, W, b, L, owned, base
+    # a float32 Tikhonov matrix: the solvers form alpha * L in float32 (numpy keeps the array dtype for a Python-float factor),
+    # i.e. they solve with (alpha L)(1 + delta), |delta| <= 2^-24; lfro = |L|_F enters the certificate tolerances (see TOLERANCES).
+    lfro = float(np.linalg.norm(L0)) if (L0 is not None and ldt == "float32") else 0.0
+    if lfro:
+        ctx.label("precision:L_float32")
+    return W0, b0, L0, W, b, L, owned, base, lfro
 
 
 def _reg_kw(prm, L):
@@ -664,7 +760,7 @@ def _scipy_nnls_wrong(C, d):
 
 
 def run_nnls(case, ctx):
-    W0, b0, L0, W, b, L, owned, base = _reg_setup(case, ctx)
+    W0, b0, L0, W, b, L, owned, base, lfro = _reg_setup(case, ctx)
     m, n = W0.shape
     degenerate, rank, _, _ = w_classes(W0, ctx)
     any_active = False
@@ -684,7 +780,8 @@ def run_nnls(case, ctx):
             ctx.fail("call", "RuntimeError: %s" % e)
         owned.scan(call_no)
         C, d = _cert(W0, b0, L0, alpha)                  # the user's problem: pristine inputs
-        if is_open(F_SCIPY) and not case.get("probe") and _scipy_nnls_wrong(C, d):
+        Cg = C if not lfro else np.vstack([W0, np.asarray(alpha * L, dtype=np.float64)])   # float32 L: alpha*L as numpy rounds it
+        if is_open(F_SCIPY) and not case.get("probe") and _scipy_nnls_wrong(Cg, d):
             # known finding: scipy.optimize.nnls itself returns a non-optimal point / inconsistent rnorm for the documented
             # normalised stacked system (degenerate dual: cell seen by no ray + diagonal Tikhonov matrix)
             ctx.label("excluded_known")
@@ -694,6 +791,8 @@ def run_nnls(case, ctx):
         r = np.dot(C, x) - d
         g = np.dot(C.T, r)
         eps, nc = _eps(C, x, d)
+        sl = U32 * alpha * lfro * float(np.linalg.norm(x))      # float32 Tikhonov matrix only: bound on |(fl32(alpha L) - alpha L) x|
+        eps += 3.0 * alpha * lfro * sl
         ctx.check(bool(np.all(g >= -eps)), "kkt-dual",
                   lambda: "gradient C^T(Cx-d) has entry %.6g < -eps=%.3g at %d: x is not a minimiser over x>=0 (alpha=%g)%s"
                   % (float(g.min()), eps, int(np.argmin(g)), alpha, tag))
@@ -703,7 +802,7 @@ def run_nnls(case, ctx):
                   lambda: "|g_i| x_i = %.6g > eps*max(x) = %.3g at %d (g_i=%.6g, x_i=%.6g, alpha=%g)%s"
                   % (float(comp.max()), eps * xm, int(np.argmax(comp)), float(g[np.argmax(comp)]), float(x[np.argmax(comp)]), alpha, tag))
         rn = float(np.linalg.norm(r))
-        ctx.check(abs(rnorm - rn) <= 1e-8 * (nc * float(np.linalg.norm(x)) + float(np.linalg.norm(d))), "rnorm",
+        ctx.check(abs(rnorm - rn) <= 1e-8 * (nc * float(np.linalg.norm(x)) + float(np.linalg.norm(d))) + sl, "rnorm",
                   lambda: "reported residual norm %.12g, but |Cx-d| = %.12g (max(b)=%g)%s" % (rnorm, rn, float(b0.max()), tag))
         if bool(np.any((x == 0) & (g > eps))):
             any_active = True
@@ -714,7 +813,7 @@ def run_nnls(case, ctx):
 
 
 def run_lstsq(case, ctx):
-    W0, b0, L0, W, b, L, owned, base = _reg_setup(case, ctx)
+    W0, b0, L0, W, b, L, owned, base, lfro = _reg_setup(case, ctx)
     m, n = W0.shape
     degenerate, rank, _, _ = w_classes(W0, ctx)
     c_def_any = False
@@ -731,6 +830,8 @@ def run_lstsq(case, ctx):
         r = np.dot(C, x) - d
         g = np.dot(C.T, r)
         eps, nc = _eps(C, x, d)
+        sl = U32 * alpha * lfro * float(np.linalg.norm(x))      # float32 Tikhonov matrix only, see run_nnls
+        eps += 3.0 * alpha * lfro * sl
         ctx.check(float(np.linalg.norm(g)) <= eps, "normal-equations",
                   lambda: "|C^T(Cx-d)| = %.6g > eps = %.3g: x does not minimise |Wx-b|^2 + alpha^2|Lx|^2 (alpha=%g)%s"
                   % (float(np.linalg.norm(g)), eps, alpha, tag))
@@ -740,7 +841,8 @@ def run_lstsq(case, ctx):
         if res.size == 1:
             ctx.label("residuals:reported")
             rr = float(np.dot(r, r))
-            tol = 1e-8 * (nc * float(np.linalg.norm(x)) + float(np.linalg.norm(d))) ** 2
+            scale = nc * float(np.linalg.norm(x)) + float(np.linalg.norm(d))
+            tol = 1e-8 * scale ** 2 + sl * (2.0 * scale + sl)
             ctx.check(abs(float(res[0]) - rr) <= tol, "residuals",
                       lambda: "reported residual %.12g, but |Cx-d|^2 = %.12g%s" % (float(res[0]), rr, tag))
         else:
@@ -757,14 +859,29 @@ def _svals(C):
 
 
 def run_svd(case, ctx):
-    W0 = _as_w(case)
+    owned = Owned()
+    W0, b0, W, b = _wb(case, ctx, owned, "w_matrix", "b_vector")
     m, n = W0.shape
-    b0 = np.array(case["b"]["v"], dtype=float)
     ctx.label("b:" + case["b"]["kind"])
     degenerate, rank, amb, vh = w_classes(W0, ctx)
-    owned = Owned()
-    W, b = owned.own("w_matrix", W0), owned.own("b_vector", b0)
-    if amb:
+    # scipy.linalg.pinv computes in single precision for float32 and bool (also int8/16, float16) matrices and in double
+    # precision for float64 / int32 / int64: the wrapper inherits that, so those inputs get a single-precision certificate.
+    single = case.get("W_dtype", "float64") in ("float32", "bool")
+    kappa = sr = None
+    if single:
+        ctx.label("precision:single")
+        sv = _svals(W0)
+        smax = float(sv[0]) if sv.size else 0.0
+        if smax > 0:
+            if bool(np.any((sv >= 1e-14 * smax) & (sv <= 1e-4 * smax))):
+                ctx.label("inconclusive:single_precision_rank_ambiguous")
+                amb = True
+            rank = int(np.sum(sv > 1e-4 * smax))
+            sr = float(sv[rank - 1])
+            kappa = smax / sr
+        else:
+            single = False                           # zero matrix: the answer is exactly 0 in any precision
+    elif amb:
         ctx.label("inconclusive:min_norm_rank_ambiguous")
     for call_no, _ in enumerate(_calls(case, {}, ctx), 1):
         tag = "" if call_no == 1 else " [call %d on the same objects]" % call_no
@@ -774,17 +891,24 @@ def run_svd(case, ctx):
         owned.scan(call_no)
         ctx.check(x.shape == (n,) and bool(np.all(np.isfinite(x))), "shape",
                   lambda: "bad solution %r (shape %s)%s" % (x.tolist(), x.shape, tag))
+        if single and amb:
+            continue
         r = np.dot(W0, x) - b0
         g = np.dot(W0.T, r)
         eps, nc = _eps(W0, x, b0)
+        nx, nb = float(np.linalg.norm(x)), float(np.linalg.norm(b0))
+        mtol = 1e-8 * nx
+        if single:
+            eps = 30.0 * U32 * kappa * (nc * nc * nx + nc * nb)
+            mtol = 30.0 * U32 * kappa * (nx + nb / sr)
         ctx.check(float(np.linalg.norm(g)) <= eps, "normal-equations",
                   lambda: "|W^T(Wx-b)| = %.6g > eps = %.3g: x is not a least-squares solution%s" % (float(np.linalg.norm(g)), eps, tag))
         if not amb:
             null = vh[rank:]
             comp = float(np.linalg.norm(np.dot(null, x))) if null.size else 0.0
-            ctx.check(comp <= 1e-8 * float(np.linalg.norm(x)), "minimum-norm",
-                      lambda: "null-space component of x is %.6g (|x| = %.6g, rank %d of n=%d): not the minimum-norm solution%s"
-                      % (comp, float(np.linalg.norm(x)), rank, n, tag))
+            ctx.check(comp <= mtol, "minimum-norm",
+                      lambda: "null-space component of x is %.6g > %.3g (|x| = %.6g, rank %d of n=%d): not the minimum-norm solution%s"
+                      % (comp, mtol, nx, rank, n, tag))
     owned.verdict(ctx)
     ctx.nt(degenerate or rank < n)
 
